@@ -266,6 +266,8 @@ impl TypeSerialize {
             return Ok(());
         }
         if let TypeInner::Knot(id) = t.as_ref() {
+            #[cfg(feature = "verif-hooks")]
+            crate::verif::probe("knot_target_built_from_memo");
             // The knot's target may have been derived outside of this builder (by
             // another builder alive on the thread, or by a `ty()` call made between
             // `new()` and `arg()`), in which case it is not in our table yet.
